@@ -64,7 +64,9 @@ def r1_checkers(ctx):
         if c[0] == "binop" and c[1] == "|":
             return all([atoms(c[2], out), atoms(c[3], out)])
         if c[0] == "cmp" and c[1] in ("<", "<=", ">", ">=") and is_const(c[3]):
-            left = Q.unwrap(c[2])
+            left = c[2]
+            while left[0] == "call" and callee(left) in ("numpy.array", "numpy.asarray", "numpy.asanyarray") and left[2]:
+                left = left[2][0]           # np.array([w, e]) > 360 tests w and e
             items = left[1] if left[0] in ("list", "tuple") else (left,)
             idx = [x[2][1] for x in items if x[0] == "sub" and x[1] == REG and is_const(x[2])]
             if len(idx) == len(items) and idx:
@@ -98,7 +100,9 @@ def r1_checkers(ctx):
     r = [p for p in ctx.paths(qn) if p.exit == "raise"]
     def arr_bounds(c, lo, hi, i):
         txt = [x for x in walk(c) if x[0] == "cmp"]
-        return any(x[1] == ">" and x[3] == const(hi) and x[2] == Q.sub(CO, i) for x in txt) and any(x[1] == "<" and x[3] == const(lo) and x[2] == Q.sub(CO, i) for x in txt)
+        def arr(t, which):
+            return t == Q.sub(CO, i) or Q.minmax_of(t) == (which, Q.sub(CO, i))        # np.any(lon > 360)  ==  lon.max() > 360
+        return any(x[1] == ">" and x[3] == const(hi) and arr(x[2], "max") for x in txt) and any(x[1] == "<" and x[3] == const(lo) and arr(x[2], "min") for x in txt)
     ctx.check("R1", qn + "|raises|longitude-range", True if any(p.conds and arr_bounds(p.conds[-1][0], -180, 360, 0) for p in r) else False, "longitudes outside [-180, 360] raise", bad="the longitude range test is missing or uses other limits", fn=qn)
     ctx.check("R1", qn + "|raises|latitude-range", True if any(p.conds and arr_bounds(p.conds[-1][0], -90, 90, 1) for p in r) else False, "latitudes outside [-90, 90] raise", bad="the latitude range test is missing or uses other limits", fn=qn)
 
@@ -129,6 +133,12 @@ def r2_r3_r4(ctx):
             continue
         wv, ev_ = rs[0].data[2][1] if rs[0].data[2][0] == "tuple" and len(rs[0].data[2][1]) == 2 else (None, None)
         globe = any(c[0] == "call" and callee(c) in ("numpy.allclose", "numpy.isclose") and v_ for c, v_ in p.conds)
+        if not globe and (wv, ev_) == (const(0), const(360)):
+            # the bounds are set to the full-globe constants under a test that is not the documented np.allclose(|E - W|, 360): the path is
+            # judged as the full-globe path, and whether the test selects exactly the full-globe inputs is left undecided (never a violation)
+            globe = True
+            ctx.add("R4", "%s|full-globe-test-recognised|%s" % (qn, tag), "UNDECIDED", "the full-globe constants (0, 360) are assigned under %s, not under the documented np.allclose(abs(E - W), 360)"
+                    % (show(p.conds[0][0])[:70] if p.conds else "no test"), fn=qn)
         if globe:
             seen_globe = True
             ctx.check("R4", "%s|full-globe-becomes-(0, 360)|%s" % (qn, tag), True if (wv, ev_) == (const(0), const(360)) else False, "a full-globe region becomes (0, 360)",
@@ -181,6 +191,8 @@ def r2_r3_r4(ctx):
                 got = Builder(sp).nf(erase_mod(t_), {src: x})
                 d = got - x
                 ok = True if d.is_const() and d.constval() % 360 == 0 else False
+                if ok is False and got.is_const() and any(any(y == src for y in walk(c_)) for c_, _v in p.conds):
+                    ok = None         # a constant assigned on a branch selected by a test on this very bound (e == 0 -> 360)
             except Undecided:
                 ok = None
             ctx.check("R4", "%s|congruent-mod-360|%s|%s" % (qn, nm, tag), ok, "the transform of %s is the identity modulo 360" % nm, bad="the transform of %s is not congruent to its input modulo 360" % nm, fn=qn)
